@@ -9,6 +9,7 @@ import (
 	"errors"
 	"fmt"
 	"os"
+	"strings"
 	"time"
 
 	"go.sia.tech/core/consensus"
@@ -45,7 +46,7 @@ var allFaults = []string{
 	"none", "cut1", "cut2", "cut3", "cut4",
 	"dial-fail", "txset-fail", "write1-fail",
 	"req-wrong-basis", "req-unknown-basis", "req-missing-parents", "req-underfund", "req-dup-inputs",
-	"req-invalid-params", "req-bad-challenge", "req-unknown-contract", "req-wrong-renter-key",
+	"req-invalid-params", "req-bad-challenge", "req-unknown-contract", "req-wrong-renter-key", "req-foreign-input",
 	"sig-bad-contract", "sig-bad-renewal", "sig-bad-input", "sig-policy-count",
 	"host-not-accepting", "host-no-funds",
 	"resp-inputs-short", "final-empty", "final-bad-sig", "final-bad-renewal-sig", "final-txid",
@@ -62,6 +63,9 @@ func applicable(s script) bool {
 		return s.Unconf
 	case "req-underfund":
 		return !s.Unconf
+	case "req-foreign-input":
+		// needs a second exchange whose host inputs stay reserved meanwhile
+		return s.Relation == "same" || s.Relation == "behind" || s.Relation == "fork-ok"
 	}
 	return true
 }
@@ -81,9 +85,9 @@ func planOf(s script) plan {
 		p.DialFail = true
 	case "write1-fail":
 		p.Write1Fail = true
-	case "req-wrong-basis", "req-unknown-basis", "req-missing-parents", "req-underfund", "req-dup-inputs", "req-bad-challenge", "req-unknown-contract":
+	case "req-wrong-basis", "req-unknown-basis", "req-missing-parents", "req-underfund", "req-dup-inputs", "req-bad-challenge", "req-unknown-contract", "req-foreign-input":
 		p.T1 = s.Fault
-		if s.Fault == "req-dup-inputs" {
+		if s.Fault == "req-dup-inputs" || s.Fault == "req-foreign-input" {
 			p.T3 = "dup-policy"
 		}
 	case "sig-bad-contract", "sig-bad-renewal", "sig-bad-input", "sig-policy-count":
@@ -178,6 +182,10 @@ type outcome struct {
 	Signer    *recSigner
 	RenterErr error
 	Streams   int // host streams opened during the attempt
+	// a second exchange that was parked with its host inputs reserved while
+	// this attempt ran (fault req-foreign-input)
+	Held                  *held
+	HeldBefore, HeldAfter []availOut
 
 	// renter result
 	ResContract rhp4.ContractRevision
@@ -232,6 +240,58 @@ func (w *world) amounts(s script, existing types.V2FileContract) (allowance, col
 	return
 }
 
+// held is a formation exchange of the honest renter that is parked after the
+// renter signed: the host handler waits for the signatures with its inputs
+// reserved.
+type held struct {
+	m      *mitm
+	signer *recSigner
+	inputs []types.V2SiacoinInput // the host inputs it reserved
+	done   chan error
+}
+
+func (w *world) startHeld(ctx context.Context, settings proto4.HostSettings) *held {
+	hb := &held{done: make(chan error, 1)}
+	hb.signer = &recSigner{w: w.R.w, key: w.renterKey}
+	hb.m = &mitm{inner: w.client, kind: "form", plan: plan{Hold: true}, reached: make(chan struct{}), release: make(chan struct{})}
+	p := proto4.RPCFormContractParams{
+		RenterPublicKey: w.renterKey.PublicKey(),
+		RenterAddress:   w.R.w.Address(),
+		Allowance:       types.Siacoins(10),
+		Collateral:      types.Siacoins(20),
+		ProofHeight:     w.cmH.Tip().Height + 300,
+	}
+	go func() {
+		_, err := rhp4.RPCFormContract(ctx, hb.m, w.cmR, hb.signer, w.cmR.TipState(), settings.Prices, w.hostKey.PublicKey(), settings.WalletAddress, p)
+		hb.done <- err
+	}()
+	select {
+	case <-hb.m.reached:
+		hb.inputs = *viewInputs(hb.m.dlvR1)
+		// the form handler rebases after it sent its inputs: let it get to the
+		// point where it waits for the signatures before the next attempt starts
+		for deadline := time.Now().Add(5 * time.Second); time.Now().Before(deadline); time.Sleep(100 * time.Microsecond) {
+			calls := strings.Join(w.log.snapshot().calls, ";")
+			if strings.Contains(calls, "CFund") && (w.rel == "same" || strings.Contains(calls, "CUpdate")) {
+				break
+			}
+		}
+		time.Sleep(time.Millisecond)
+	case err := <-hb.done:
+		hb.done <- err // the exchange ended before it could be parked
+		return nil
+	case <-time.After(10 * time.Second):
+		panic("held exchange did not reach its parking point")
+	}
+	return hb
+}
+
+func (hb *held) finish() {
+	close(hb.m.release)
+	<-hb.done
+	hb.m.wait()
+}
+
 // run executes one attempt; the world must already be in the script's relation.
 func (w *world) run(s script) *outcome {
 	w.attemptNo++
@@ -264,6 +324,14 @@ func (w *world) run(s script) *outcome {
 	m.tamper = func(stage int, name string, wr *wire) { w.tamper(o, stage, name, wr) }
 	o.M, o.Signer = m, signer
 
+	outstanding := 0
+	if s.Fault == "req-foreign-input" {
+		o.HeldBefore = w.H.avail()
+		w.log.reset()
+		if o.Held = w.startHeld(ctx, settings); o.Held != nil {
+			outstanding = 1
+		}
+	}
 	o.HostBefore, o.RenterBefore = w.H.avail(), rn.avail()
 	o.HostBal0, o.RenterBal0 = bal(w.H), bal(rn)
 	w.log.reset()
@@ -323,7 +391,7 @@ func (w *world) run(s script) *outcome {
 	m.mu.Lock()
 	o.Streams = m.hostConns
 	m.mu.Unlock()
-	if !w.trk.waitIdle(n0 + o.Streams) {
+	if !w.trk.waitIdle(n0+o.Streams, outstanding) {
 		panic("host handler did not return")
 	}
 	o.Log = w.log.snapshot()
@@ -332,6 +400,13 @@ func (w *world) run(s script) *outcome {
 	}
 	o.HostAfter, o.RenterAfter = w.H.avail(), rn.avail()
 	o.HostBal1, o.RenterBal1 = bal(w.H), bal(rn)
+	if o.Held != nil {
+		o.Held.finish()
+		if !w.trk.waitIdle(0) {
+			panic("held host handler did not return")
+		}
+		o.HeldAfter = w.H.avail()
+	}
 	return o
 }
 
@@ -361,6 +436,13 @@ func (w *world) tamper(o *outcome, stage int, name string, wr *wire) {
 			}
 		case "req-dup-inputs":
 			*v.Inputs = append(*v.Inputs, (*v.Inputs)[0].Copy())
+		case "req-foreign-input":
+			// name outputs the host has reserved for another exchange as renter inputs
+			if o.Held != nil {
+				for _, in := range o.Held.inputs {
+					*v.Inputs = append(*v.Inputs, in.Parent.Copy())
+				}
+			}
 		case "req-bad-challenge":
 			switch r := wr.req.(type) {
 			case *proto4.RPCRenewContractRequest:
@@ -399,7 +481,14 @@ func (w *world) tamper(o *outcome, stage int, name string, wr *wire) {
 				*v.Policies = (*v.Policies)[:n-1]
 			}
 		case "dup-policy":
-			*v.Policies = append(*v.Policies, (*v.Policies)[0])
+			// as many policies as the (rewritten) request has inputs
+			want := len(*v.Policies) + 1
+			if o.M.fwdReq != nil {
+				want = len(*viewReq(o.M.fwdReq).Inputs)
+			}
+			for len(*v.Policies) < want && len(*v.Policies) > 0 {
+				*v.Policies = append(*v.Policies, (*v.Policies)[0])
+			}
 		}
 	case 4:
 		v := viewFinal(wr.r3)
